@@ -54,8 +54,8 @@ class CSSParser:
         if loglevel is not None:
             cssutils.log.setLevel(loglevel)
 
-        # remember global setting
-        self.__globalRaising = cssutils.log.raiseExceptions
+        # global setting, remembered at the start of each parse
+        self.__globalRaising = []
         if raiseExceptions:
             self.__parseRaising = raiseExceptions
         else:
@@ -72,9 +72,10 @@ class CSSParser:
         init parameter ``raiseExceptions``
         """
         if parse:
+            self.__globalRaising.append(cssutils.log.raiseExceptions)
             cssutils.log.raiseExceptions = self.__parseRaising
         else:
-            cssutils.log.raiseExceptions = self.__globalRaising
+            cssutils.log.raiseExceptions = self.__globalRaising.pop()
 
     def parseStyle(self, cssText, encoding='utf-8', validate=None):
         """Parse given `cssText` which is assumed to be the content of
@@ -92,13 +93,15 @@ class CSSParser:
             :class:`~cssutils.css.CSSStyleDeclaration`
         """
         self.__parseSetting(True)
-        if isinstance(cssText, bytes):
-            # TODO: use codecs.getdecoder('css') here?
-            cssText = cssText.decode(encoding)
-        if validate is None:
-            validate = self._validate
-        style = css.CSSStyleDeclaration(cssText, validating=validate)
-        self.__parseSetting(False)
+        try:
+            if isinstance(cssText, bytes):
+                # TODO: use codecs.getdecoder('css') here?
+                cssText = cssText.decode(encoding)
+            if validate is None:
+                validate = self._validate
+            style = css.CSSStyleDeclaration(cssText, validating=validate)
+        finally:
+            self.__parseSetting(False)
         return style
 
     def parseString(
@@ -131,26 +134,28 @@ class CSSParser:
             :class:`~cssutils.css.CSSStyleSheet`.
         """
         self.__parseSetting(True)
-        # TODO: py3 needs bytes here!
-        if isinstance(cssText, bytes):
-            cssText = codecs.getdecoder('css')(cssText, encoding=encoding)[0]
+        try:
+            # TODO: py3 needs bytes here!
+            if isinstance(cssText, bytes):
+                cssText = codecs.getdecoder('css')(cssText, encoding=encoding)[0]
 
-        if validate is None:
-            validate = self._validate
+            if validate is None:
+                validate = self._validate
 
-        sheet = cssutils.css.CSSStyleSheet(
-            href=href,
-            media=cssutils.stylesheets.MediaList(media),
-            title=title,
-            validating=validate,
-        )
-        sheet._setFetcher(self.__fetcher)
-        # tokenizing this ways closes open constructs and adds EOF
-        sheet._setCssTextWithEncodingOverride(
-            self.__tokenizer.tokenize(cssText, fullsheet=True),
-            encodingOverride=encoding,
-        )
-        self.__parseSetting(False)
+            sheet = cssutils.css.CSSStyleSheet(
+                href=href,
+                media=cssutils.stylesheets.MediaList(media),
+                title=title,
+                validating=validate,
+            )
+            sheet._setFetcher(self.__fetcher)
+            # tokenizing this ways closes open constructs and adds EOF
+            sheet._setCssTextWithEncodingOverride(
+                self.__tokenizer.tokenize(cssText, fullsheet=True),
+                encodingOverride=encoding,
+            )
+        finally:
+            self.__parseSetting(False)
         return sheet
 
     def parseFile(
